@@ -124,7 +124,9 @@ impl PageCache {
         };
 
         let mut found_victim = None;
-        // Attempt to iterate over all the frames.
+        // Attempt to iterate over all the frames, starting over on every call: a frame that was
+        // pinned when an earlier scan passed it may have been released since.
+        self.cursor = 0;
         while self.cursor <= self.frames.len() && found_victim.is_none() {
             if let Some((pid, frame)) = self.frames.get_index(self.cursor) {
                 if frame.is_free() {
